@@ -13,6 +13,8 @@ import copy as _copy
 import json
 import os
 
+import numpy as np
+
 PROP = 'C14'
 TARGETS = ['T14', 'T14p']
 LEAN_MODULES = ['HdVerif.Props.C14']
@@ -21,9 +23,10 @@ NAMESPACE = 'HdVerif.C14'
 DRIVER = 'Drivers/C14.lean'
 RULE = ('one case = one history: a construction (constructor / from_sequence / ContentItem.ContentSequence setter) of a '
         'root, non-root SR or non-SR sequence from 0..4 items followed by 1..15 operations drawn from append, extend, '
-        '(argument a list or a ContentSequence with any flags), insert (any position), setitem (index / slice incl. extended), delitem (index / slice), +=, pop, remove, '
+        '(argument a list or a ContentSequence with any flags), insert (any position, also positions that are not ints), setitem (index / slice incl. extended), delitem (index / slice), +=, pop, remove '
+        '(indices and positions in every accepted spelling: int, bool, numpy integer types, objects with __index__), '
         'reverse, clear, continue-on-find-result, continue-on-get_nodes-result; in 35 % of the histories a POOL of up to three sequences is alive (clone = ContentSequence(member, own flags), attach = item.ContentSequence = member), operations go to any member and EVERY member is observed after every step; items share a 4-name alphabet (equal '
-        'names may differ in code meaning; two further names are an SRT / SCT alias pair, == but with different hashes), carry or lack a relationship type, and have a unique ObservationUID unless '
+        'names may differ in code meaning; two further names are an SRT / SCT alias pair, == but with different hashes; two more are the code of name 0 with scheme versions 1.0 / 2.0 - different names with the same value and designator; every fifth item gets its name as a plain pydicom Code), carry or lack a relationship type, and have a unique ObservationUID unless '
         'deliberately duplicated (same object or equal copy); after every step list, find(n) for all names, index/in '
         'for all items made so far and get_nodes are observed.  Non-trivial = history with >= 2 accepted mutations and '
         'two items sharing a name present at some point; distinct by (kind, op-kind sequence, accept pattern)')
@@ -40,7 +43,8 @@ MODELLED_NOT_VERIFIED = ['pydicom.sequence.Sequence / ConstrainedList (list muta
 
 NAMES = 4                      # alphabet n0..n3 (+ one name never used: index NAMES)
 ALIAS = (5, 6)                 # two names that are == (SRT T-B7000 / SCT 111002) but hash differently
-ALL_NAMES = 7                  # every name index that is looked up after every step
+VERSIONED = (7, 8)              # the code of name 0 with scheme version '1.0' / '2.0': different names (and keys)
+ALL_NAMES = 9                  # every name index that is looked up after every step
 RELS = ['CONTAINS', 'HAS PROPERTIES', 'HAS OBS CONTEXT', 'INFERRED FROM']
 KINDS = {'root': (True, True), 'sr': (False, True), 'nonsr': (False, False)}
 ERR = {'IndexError': 'index', 'ValueError': 'value', 'TypeError': 'type', 'RuntimeError': 'runtime',
@@ -72,7 +76,7 @@ def _gen_item(r, kind, st, p_bad=0.15, init=False):
     else:
         rel = r.choice(RELS) if r.random() < (0.04 if init else 0.3) else None
         cls = r.choice(['text', 'text', 'code', 'num', 'container'])
-    d = {'u': u, 'n': r.choice(ALIAS) if r.random() < 0.03 else
+    d = {'u': u, 'n': r.choice(ALIAS) if r.random() < 0.03 else r.choice(VERSIONED + (0,)) if r.random() < 0.08 else
          (min(r.randrange(NAMES + 2), NAMES - 1) if r.random() < 0.5 else r.randrange(NAMES)),
          'm': r.randrange(2), 'rel': rel, 'cls': cls, 'content': r.random() < 0.35, 't': u}
     st['made'].append(d)
@@ -80,6 +84,32 @@ def _gen_item(r, kind, st, p_bad=0.15, init=False):
 
 
 BAD_POS = {'float': 1.0, 'none': None, 'str': 'first'}
+SPELLINGS = ['int', 'int', 'int', 'np.int64', 'np.intp', 'np.int8', 'np.uint16', 'bool', 'index-object']
+
+
+class _Idx:
+    """an object that is an index only through __index__"""
+
+    def __init__(self, v):
+        self.v = v
+
+    def __index__(self):
+        return self.v
+
+
+def _spell(value, how):
+    """The same integer in another accepted spelling (falls back to int where the spelling cannot hold the value)."""
+    if not isinstance(value, int) or isinstance(value, bool) or how in (None, 'int'):
+        return value
+    if how == 'bool':
+        return bool(value) if value in (0, 1) else value
+    if how == 'index-object':
+        return _Idx(value)
+    if how == 'np.uint16':
+        return np.uint16(value) if 0 <= value < 65536 else value
+    if how == 'np.int8':
+        return np.int8(value) if -128 <= value < 128 else value
+    return {'np.int64': np.int64, 'np.intp': np.intp}[how](value)
 
 
 def _gen_bulk(r, op, kind, st, p_bad, sizes):
@@ -182,6 +212,9 @@ def gen_case(ctx, idx):
             ops.append({'op': 'into_find', 'n': r.randrange(NAMES)})
         else:
             ops.append({'op': 'into_nodes'})
+    for op in ops:
+        if op['op'] in ('insert', 'setitem', 'delitem', 'pop'):
+            op['spell'] = r.choice(SPELLINGS)          # every accepted spelling of an index: int, bool, numpy ints, __index__
     if pool_case:
         for op in ops:
             op.setdefault('seq', r.randrange(3))       # taken modulo the pool size when the history runs
@@ -199,6 +232,9 @@ def _name(n, m=0):
         return CodedConcept('T-B7000', 'SRT', 'alias a')
     if n == ALIAS[1]:
         return CodedConcept('111002', 'SCT', 'alias b')
+    if n in VERSIONED:
+        return CodedConcept(value=str(1000), scheme_designator='99HDV', meaning='name 0' + (' (alt)' if m else ''),
+                            scheme_version='1.0' if n == VERSIONED[0] else '2.0')
     return CodedConcept(value=str(1000 + n), scheme_designator='99HDV', meaning=f'name {n}' + (' (alt)' if m else ''))
 
 
@@ -210,6 +246,10 @@ def _build(d):
     from highdicom.sr import (CodeContentItem, ContainerContentItem, NumContentItem, TextContentItem)
     from pydicom.sr.codedict import codes
     nm = _name(d['n'], d['m'])
+    if d['u'] % 5 == 0 and d['n'] not in ALIAS:
+        # the name as a plain pydicom Code (with or without scheme version); the constructor converts it
+        from pydicom.sr.coding import Code
+        nm = Code(nm.value, nm.scheme_designator, nm.meaning, nm.scheme_version)
     rel = d['rel']
     if d['cls'] == 'text':
         it = TextContentItem(nm, f"item {d['u']}", relationship_type=rel)
@@ -440,17 +480,17 @@ def _apply(seq, op, objs):
                 signal.setitimer(signal.ITIMER_REAL, 0)
                 signal.signal(signal.SIGALRM, old)
         elif o == 'insert':
-            seq.insert(BAD_POS[op['pos']] if isinstance(op['pos'], str) else op['pos'], objs.get(op['x']))
+            seq.insert(BAD_POS[op['pos']] if isinstance(op['pos'], str) else _spell(op['pos'], op.get('spell')), objs.get(op['x']))
         elif o == 'setitem':
-            seq[op['i']] = objs.get(op['x'])
+            seq[_spell(op['i'], op.get('spell'))] = objs.get(op['x'])
         elif o == 'setslice':
             seq[slice(*op['s'])] = [objs.get(x) for x in op['xs']]
         elif o == 'delitem':
-            del seq[op['i']]
+            del seq[_spell(op['i'], op.get('spell'))]
         elif o == 'delslice':
             del seq[slice(*op['s'])]
         elif o == 'pop':
-            seq.pop() if op['i'] is None else seq.pop(op['i'])
+            seq.pop() if op['i'] is None else seq.pop(_spell(op['i'], op.get('spell')))
         elif o == 'remove':
             seq.remove(objs.get(op['x']))
         elif o == 'reverse':
